@@ -299,6 +299,64 @@ fn main()
             }
         }
     }
+    // RE-EXECUTION WITH A SUPPLIED GENERATOR: a circuit that begins with reset_all re-executes from |0...0> whatever the
+    // previous run left, so the result of `reexecute_with_rng(seeded)` - register AND the number of words drawn - may depend
+    // on that seeded generator only: not on the generator an EARLIER run of the same object was given (another seed, or the
+    // ambient thread_rng of execute()), i.e. nothing random may be carried over inside the state object.
+    {
+        let cts: Vec<CircuitText> = vec![
+            CircuitText { nq: 6, nc: 6, ops: vec!["resetall".into(), "gate 1 0 H".into(), "gate 1 1 H".into(), "gate 1 2 H".into(), "gate 1 3 H".into(), "gate 1 4 H".into(), "gate 1 5 H".into(),
+                "measure 0 0 Z".into(), "measure 1 1 Z".into(), "measure 2 2 Z".into(), "measure 3 3 Z".into(), "measure 4 4 Z".into(), "measure 5 5 Z".into()] },
+            CircuitText { nq: 3, nc: 3, ops: vec!["resetall".into(), "gate 1 0 H".into(), "gate 2 0 1 CX".into(), "measure 0 0 Z".into(), "gate 1 2 H".into(), "measure 2 2 X".into(), "measure 1 1 Z".into()] },
+            CircuitText { nq: 2, nc: 2, ops: vec!["resetall".into(), "gate 1 0 H".into(), "gate 1 1 H".into(), "measureall 2 0 1 Z".into()] },
+        ];
+        for ct in cts.iter()
+        {
+            for repr in ["vector", "stabilizer", "auto"].iter()
+            {
+                for &shots in [1usize, 2, 5, 64].iter()
+                {
+                    let one = |first: Option<u64>| -> String {
+                        let ctc = ct.clone(); let repr = repr.to_string();
+                        std::panic::catch_unwind(move || {
+                            let mut c = match build(&ctc) { Ok(c) => c, Err(e) => return format!("build-{}", show_err(&e).replace(' ', "_")) };
+                            let r1 = match first
+                            {
+                                Some(sd) => { let mut g = rand_hc::Hc128Rng::seed_from_u64(sd);
+                                    match repr.as_str() { "vector" => c.execute_with(shots, &mut g, q1tsim::circuit::QuStateRepr::vector(ctc.nq, shots)),
+                                        "stabilizer" => c.execute_with(shots, &mut g, q1tsim::circuit::QuStateRepr::stabilizer(ctc.nq, shots)),
+                                        _ => c.execute_with_rng(shots, &mut g) } },
+                                None => { let mut g = rand::thread_rng();
+                                    match repr.as_str() { "vector" => c.execute_with(shots, &mut g, q1tsim::circuit::QuStateRepr::vector(ctc.nq, shots)),
+                                        "stabilizer" => c.execute_with(shots, &mut g, q1tsim::circuit::QuStateRepr::stabilizer(ctc.nq, shots)),
+                                        _ => c.execute(shots) } }
+                            };
+                            if let Err(e) = r1 { return format!("first-run-{}", show_err(&e).replace(' ', "_")); }
+                            let mut rng = Counting { inner: rand_hc::Hc128Rng::seed_from_u64(0xC10C10), words32: 0, words64: 0, bytes: 0 };
+                            let mut acc = String::new();
+                            for _ in 0..2
+                            {
+                                match c.reexecute_with_rng(&mut rng)
+                                {
+                                    Ok(()) => acc += &format!("reg:{} rng:{}/{}/{} ", join(&c.cstate().unwrap().to_vec()).replace(' ', ","), rng.words32, rng.words64, rng.bytes),
+                                    Err(e) => { acc += &show_err(&e).replace(' ', "_"); break; }
+                                }
+                            }
+                            acc
+                        }).unwrap_or_else(|_| "panic".to_string()) };
+                    let base = one(Some(1));
+                    let mut verdict = String::new();
+                    for first in [Some(2u64), Some(0xDEADBEEF), None, None].iter()
+                    {
+                        let r = one(*first);
+                        if r != base { verdict = format!(" reexecution-depends-on-the-generator-of-the-earlier-run(first-run-seed={:?})[{}|{}]", first, base, r); break; }
+                    }
+                    out.case(&format!("reexec-seeded | {} | {} {} | {} | {}", repr, ct.nq, ct.nc, shots, ct.ops.join(" ; ")),
+                        &if verdict.is_empty() { "same ran".to_string() } else { format!("differs{}", verdict) });
+                }
+            }
+        }
+    }
     let n = out.finish();
     eprintln!("c10: {} cases", n);
 }
